@@ -151,7 +151,7 @@ Fixpoint whole_lines (ls : list text) (i : N) (cur target : N) : list event :=
     else whole_lines ls' (i + 1) cur target
   end.
 
-Definition sm_full_step (ls : list text) (fl fc : N) (st : fstate) (m : mapping) : fstate * list event :=
+Definition sm_full_step_body (ls : list text) (fl fc : N) (st : fstate) (m : mapping) : fstate * list event :=
   let n := len ls in
   (* 1: close the active mapping *)
   let '(st1, ev1) :=
@@ -173,7 +173,8 @@ Definition sm_full_step (ls : list text) (fl fc : N) (st : fstate) (m : mapping)
       (mkF (f_line st1 + 1) 0 (f_active st1) (f_orig st1),
        if f_line st1 <=? n then
          match line_at ls (f_line st1) with
-         | Some line => [EChunk (Some (substring line (f_col st1) None)) (unmapped (f_line st1) (f_col st1))]
+         | Some line => let chunk := substring line (f_col st1) None in
+                        if is_nil chunk then [] else [EChunk (Some chunk) (unmapped (f_line st1) (f_col st1))]
          | None => []
          end
        else [])
@@ -189,7 +190,8 @@ Definition sm_full_step (ls : list text) (fl fc : N) (st : fstate) (m : mapping)
       (mkF (f_line st3) (g_col m) (f_active st3) (f_orig st3),
        if f_line st3 <=? n then
          match line_at ls (f_line st3) with
-         | Some line => [EChunk (Some (substring line (f_col st3) (Some (g_col m)))) (unmapped (f_line st3) (f_col st3))]
+         | Some line => let chunk := substring line (f_col st3) (Some (g_col m)) in
+                        if is_nil chunk then [] else [EChunk (Some chunk) (unmapped (f_line st3) (f_col st3))]
          | None => []
          end
        else [])
@@ -203,6 +205,11 @@ Definition sm_full_step (ls : list text) (fl fc : N) (st : fstate) (m : mapping)
     | None => st4
     end in
   (st5, ev1 ++ ev2 ++ ev3 ++ ev4).
+
+(* a mapping that lies before the current position is ignored (it would re-emit text) *)
+Definition sm_full_step (ls : list text) (fl fc : N) (st : fstate) (m : mapping) : fstate * list event :=
+  if (g_line m <? f_line st) || ((g_line m =? f_line st) && (g_col m <? f_col st)) then (st, [])
+  else sm_full_step_body ls fl fc st m.
 
 Fixpoint sm_full_loop (ls : list text) (fl fc : N) (st : fstate) (ms : list mapping) : fstate * list event :=
   match ms with
